@@ -376,7 +376,7 @@ def fits_w(w, size, atomic=()):
         if min(left, right, top, bottom) < 0:
             return False
         tsz = w.top_w_size(size, left, right, top, bottom)
-        if len(tsz) == 1 and w.top_w.rows(tsz, True) > size[1] - top - bottom:
+        if len(tsz) == 1 and top + w.top_w.rows(tsz, True) > size[1]:      # the drawn rows must be inside the area
             return False
         return fits_w(w.top_w, tsz, atomic) and fits_w(w.bottom_w, size, atomic)
     if isinstance(w, urwid.GridFlow):
@@ -819,6 +819,12 @@ def judge(case, res):
         return msgs, obs
     tree = case["tree"]
     lnodes = leaf_nodes(tree)
+    root = tree[0] + ((" height=" + tree[6][0]) if tree[0] == "overlay" else "")
+
+    class Tagged(list):
+        def append(self, m):
+            list.append(self, m + f" [root: {root}]")
+    msgs = Tagged()
     rect = {l[0]: l for l in res["leaves"]}
     text = drawn_grid(res)
     # --- clause 1: reported cursor = cursor of the focused rendering ---
@@ -1109,7 +1115,7 @@ class C09(core.Check):
         return bool(res.get("fits")) and len(res.get("leaves", [])) >= 1
 
     def signature(self, case, msg):
-        return re.sub(r"\d+", "N", msg)
+        return re.sub(r"\d+", "N", re.sub(r" \[root: [^\]]*\]$", "", msg))
 
     # ---------- generator ----------
     def sized(self, rng, tree, box, tries=7):
@@ -1172,6 +1178,8 @@ class C09(core.Check):
         tree, size, moves = case["tree"], list(case["size"]), case["moves"]
         box = len(size) == 2
         mode = "box" if box else "flow"
+        if moves:
+            yield {"tree": tree, "size": size, "moves": []}
         # a child of the root in place of the root (its own mode, a few sizes)
         for c, m in zip(children(tree), child_modes(tree, mode)):
             if c[0] == "fill":
